@@ -32,7 +32,7 @@ ASSUMPTIONS = [
 ]
 
 FAULTS = ['none', 'exc', 'nans', 'nanw', 'nonconv']
-NORMAL = [('moved', 0), ('conv', 0)]
+NORMAL = [('moved', 0), ('conv', 0), ('conv', 0)]  # converges at pass 2, or at pass 3 when min_iter == max_iter == 3
 
 
 class LScripted(scripted.ScriptedBase, fsic.BaseModel):
@@ -126,6 +126,33 @@ def run_pair_case(case):
     oa, ob = observe(a), observe(b)
     if oa != ob:
         out.append(('differential:state', 'equal to the solve_t loop', diff_obs(ob, oa), 'solve() leaves a different state than the loop of single-period solves'))
+    # the statuses the policies prescribe, stated directly (reference state machine of the single-period solver, never the code's own solve_t)
+    if not out and all(1 <= p <= n - 2 for p in rng):
+        fresh0, _ = build(kind, n, fpos, fault)
+        opts = dict(minIter=case['min_iter'], maxIter=3, errors=case['errors'], failures=case['failures'], cfe=case.get('cfe', True), pre='finite', preHook='none', postHook='none')
+        stopped = False
+        for p in range(n):
+            if p not in rng or stopped:
+                want = (str(fresh0.status[p]), int(fresh0.iterations[p]))
+            else:
+                if p == fpos and fault == 'nonconv':
+                    hist = ['moved'] * 8
+                elif p == fpos and fault != 'none':
+                    hist = ['moved', fault]
+                else:
+                    hist = [o for o, _ in NORMAL]
+                e = refsolve.ref_trace(opts, hist + ['moved'] * 8)
+                want = (e['status'], e['iters'] if e['status'] != '-' else int(fresh0.iterations[p]))
+                if e['result'] not in ('True', 'False'):
+                    stopped = True
+                    if ra[0] != e['result']:
+                        out.append(('prescribed:exception', e['result'], ra[0], 'solve() must stop with the exception the policy prescribes for period %d' % p))
+            got = (str(a.status[p]), int(a.iterations[p]))
+            if got != want:
+                out.append(('prescribed:status', [p, want], [p, got], 'a period does not carry the status / iteration count its policy prescribes'))
+                break
+        if not stopped and ra[0] != 'value':
+            out.append(('prescribed:exception', 'value', ra[0], 'solve() raised although no period prescribes an exception'))
     # containment, stated directly: periods after the failing one are untouched
     if exc is not None:
         failing = rng[len(rb[1])]
@@ -159,7 +186,7 @@ def run_pairs(block, tier, acc):
         for fpos, fault in fault_places:
             for errors in ('raise', 'skip', 'ignore', 'replace'):
                 for failures in ('raise', 'ignore'):
-                    for min_iter, cfe in (((0, True), (0, False)) if tier == 'quick' else ((0, True), (2, True), (0, False))):
+                    for min_iter, cfe in ((0, True), (3, True), (0, False), (3, False)):  # 3 == max_iter: a fixed number of passes; a fault at pass 2 comes before min_iter
                         if cfe is False and (fault in ('none', 'nonconv') or errors != 'raise'):
                             continue
                         case = dict(kind='pairs', span=kind, n=n, si=si, ei=ei, fpos=fpos, fault=fault, errors=errors,
